@@ -9,9 +9,9 @@ monitor : on the implementation's outputs alone: every rule of the record in exa
           file status rule, FAIL rule listed even without checks, nothing under PASS/SKIP rules; 1..3 rules files per
           run: the report of the run equals the union of the single-file reports
 """
-import json, random, os
+import json, random, os, re
 from .. import coqterm as ct
-from .. import impl, model, gen, e2e
+from .. import impl, model, gen, e2e, corr
 from ..common import *
 
 HEADER = 'From GV.Model Require Import Check Report.\n'
@@ -78,6 +78,13 @@ def monitor(ctx, report, statuses, info):
 def run_pairs(ctx, n):
     rng = random.Random(ctx.seed * 97 + 9)
     pairs = [{'rules': r, 'data': json.dumps(d)} for r, d in EXTRA]
+    svc = {'service': {'ports': [443, 8080, 22, 9090], 'name': 'api'}, 'approved': {'ports': [22, 443, 80]}, 'tls': {'min': 1}}
+    for r in ('let allowed = approved.ports[*]\nrule ports_approved {\n  service.ports[*] in %allowed <<port not approved>>\n}\n',
+              'let allowed = approved.ports\nrule ports_approved {\n  service.ports[*] in %allowed <<port not approved>>\n  some service.ports[*] in %allowed\n}\n',
+              'rule ports_approved {\n  service.ports[*] in approved.ports[*] <<port not approved>>\n}\nrule none_approved {\n  service.ports[*] not in approved.ports[*] <<port approved>>\n}\n',
+              'rule legacy_tls {\n  tls.min >= 2 <<tls too old>>\n}\nrule modern_endpoint {\n  service.name == "web" <<wrong name>>\n  !legacy_tls <<legacy must fail>>\n}\nrule modern_and_named {\n  service.name == "web" <<wrong name>>\n  !legacy_tls\n}\n',
+              'rule audited {\n  tls.min >= 2 <<tls too old>>\n}\nrule listener {\n  when service.name exists {\n    audited <<not audited>>\n    service.ports[*] < 10000\n  }\n}\nrule listener2 {\n  audited <<not audited>>\n}\n'):
+        pairs.append({'rules': r, 'data': json.dumps(svc)})
     for i in range(n):
         doc, prog = gen.gen_pair(rng, {'cycles': 0.0})
         pairs.append({'rules': gen.render_file(prog), 'data': json.dumps(doc)})
@@ -118,6 +125,34 @@ def run_pairs(ctx, n):
         v = verdicts.get(i, 'NoModelOutput')
         if v != 'RepAgree':
             ctx.failing('the printed report differs from the model report of the same evaluation record (%s)' % v, info[i], found=False)
+    # the same printed report against the report of the MODEL's evaluation record (SEval on the parsed AST and loaded value):
+    # a check that is listed although the clause did not FAIL for that value, or one that is listed under another rule
+    # because its record was attached elsewhere, agrees with the implementation's own record but not with this one
+    sub = [i for i, _, _ in cases]
+    def expr(k, fuel, chk):
+        i = sub[k]
+        inf = info[i]
+        rep = inf['report']
+        args = '%s %s %s %s' % (rep['status'], ct.clist([skel(x) for x in rep['not_compliant']]),
+                                ct.clist([ct.cstr(x) for x in rep['not_applicable']]), ct.clist([ct.cstr(x) for x in rep['compliant']]))
+        return ('(%s, match eval_file (re_of_table rt%d) (conv_of_table ct%d) p%d %d d%d with Done (_, [rec], _) => Some (report_agrees rec %s) | _ => None end)'
+                % (chk, k, k, k, fuel, k, args))
+    out, errs = corr.run([pairs[i] for i in sub], ctx.wd, 'c09model', loader='lib', expr=expr, header=HEADER)
+    if errs:
+        raise ToolingError('model evaluation failed: %r' % (errs[:1],))
+    nm = 0
+    for k, o in enumerate(out):
+        if o['kind'] != 'compared':
+            continue
+        v = o['verdict']
+        nm += 1
+        if 'Some RepAgree' in v or 'None' in v:
+            if re.search(r'VDis|VModelOOF', v):
+                ctx.failing('model and implementation disagree on a generated program (%s)' % v, dict(info[sub[k]], **{'class': 'eval-correspondence'}), found=False)
+            continue
+        ctx.failing('the printed report is not the report of what the rules evaluate to on this document: against the evaluation record of the model it differs (%s)' % v,
+                    dict(info[sub[k]], **{'class': 'report-vs-model'}), found=True)
+    ctx.coverage['report_vs_model_record'] = nm
     ctx.coverage['report_pairs'] = len(cases)
     ctx.coverage['report_distribution'] = stats
     ctx.coverage['evaluations'] += len(cases)
